@@ -200,6 +200,9 @@ def configs(tier):
     add(modes=("level", "rise"), dw=1, attach="direct", elab_twice=True)
     add(modes=("fall",), dw=2, attach="connect", elab_twice=True)
     add(modes=("level", "level"), dw=1, attach="direct", align=2)
+    # five events: one byte-wide chunk per register (token write data, walking source vectors); five CHUNKS per register
+    # are beyond what this check explores (6e6 states were not enough) - the multiplexer side of that is C04/C05's
+    add(modes=("level",) * 5, dw=8, attach="direct", src_vectors="walking", wvals=(0, 0x1F, 0x10, 0x01), driver="lean")
     # large event counts (existence and map shape only): word counts that are not powers of two, with alignment
     for n, dw, align in ((5, 1, 1), (5, 2, 0), (7, 1, 2), (9, 8, 0), (12, 8, 1), (17, 8, 1), (20, 8, 1), (24, 8, 2), (33, 8, 1), (40, 16, 1),
                          (65, 32, 1), (64, 8, 0), (70, 8, 3)):
